@@ -256,7 +256,7 @@ def run_grid(a):
         elif s == "A_Spec_fourier_complex":
             x = data(seed, (2, N), True)
         else:
-            x = data(seed, (2, N))
+            x = data(seed, (2, N), cplx)
         T = mk_series(src, x)
         fs_impl = float(T.sampling_rate)
         welch = dict(this_method="welch", NFFT=NFFT, n_overlap=NFFT // 2)
@@ -264,11 +264,21 @@ def run_grid(a):
             C = nta.CoherenceAnalyzer(T, method=dict(welch))
             f, ln = C.frequencies, C.spectrum.shape[-1]
         elif s == "A_Coh_pcsd":
-            C = nta.CoherenceAnalyzer(T, method=dict(this_method="periodogram_csd", NFFT=NFFT))
+            m = dict(this_method="periodogram_csd")
+            if not a.get("nfft_none"):
+                m["NFFT"] = NFFT
+            if a.get("sides_arg"):
+                m["sides"] = a["sides_arg"]
+            C = nta.CoherenceAnalyzer(T, method=m)
             f, ln = C.frequencies, C.spectrum.shape[-1]
         elif s == "A_Coh_mt":
             def go(nw):
-                C = nta.CoherenceAnalyzer(T, method=dict(this_method="multi_taper_csd", NW=nw, adaptive=False))
+                m = dict(this_method="multi_taper_csd", NW=nw, adaptive=False)
+                if a.get("nfft_arg"):
+                    m["NFFT"] = NFFT
+                if a.get("sides_arg"):
+                    m["sides"] = a["sides_arg"]
+                C = nta.CoherenceAnalyzer(T, method=m)
                 return C.frequencies, C.spectrum.shape[-1]
             (f, ln), nw = mt_try(go)
         elif s == "A_MTCoh":
@@ -522,9 +532,12 @@ def true_freqs(a):
         n = a["NFFT"]
         lb, ub = opt_float(a["lb"]), opt_float(a["ub"])
         return [k * Fs / n for k in range(n // 2 + 1) if in_band(k * Fs / n, lb, ub)]
-    if s in ("A_MTCoh", "A_SNR", "A_Spec_periodogram", "A_Spec_fourier_real", "A_Spec_mt"):
+    if s in ("A_MTCoh", "A_SNR", "A_Spec_fourier_real"):
         n = a["N"]
         return [k * Fs / n for k in range(n // 2 + 1)]
+    if s in ("A_Spec_periodogram", "A_Spec_mt"):
+        n = a["N"]
+        return [k * Fs / n for k in range(nbins(n, a["sides"]))]
     if s == "A_Spec_fourier_complex":
         n = a["N"]
         return [(i - n // 2) * Fs / n for i in range(n)]
@@ -805,7 +818,25 @@ def gen_actions(ctx):
                                  lb=lb, ub=ub, tie=True)
             # analyzers
             grid("A_Coh_welch", 3 * n, n)
-            grid("A_Coh_pcsd", n, n)
+            # CoherenceAnalyzer through the unshifted estimators: method x {real, complex} x sides in
+            # {default, onesided, twosided} x NFFT {None, < N, N, > N}; the two-sided grid is k*Fs/NFFT on [0, Fs)
+            def coh_variants(site, count):
+                for _v in range(count):
+                    cplx = rng.random() < 0.5
+                    sarg = rng.choice([None, None, "onesided", "twosided"])
+                    sides = {"onesided": "OneSided", "twosided": "TwoSided"}.get(sarg, "TwoSided" if cplx else "OneSided")
+                    kind = rng.choice(["none", "lt", "eq", "gt"])
+                    nd = n
+                    nfft = {"none": n, "eq": n, "lt": max(2, n - rng.randint(1, 4)), "gt": n + rng.randint(1, 9)}[kind]
+                    if site == "A_Coh_pcsd":
+                        grid(site, nd, nfft, sides, cplx=cplx, sides_arg=sarg, nfft_none=(kind == "none"))
+                    elif nd >= 3:
+                        grid(site, nd, nfft, sides, cplx=cplx, sides_arg=sarg, nfft_arg=(kind != "none"))
+            coh_variants("A_Coh_pcsd", 3)
+            coh_variants("A_Coh_mt", 2)
+            if n >= 3:
+                grid("A_Spec_mt", n, n, "TwoSided", cplx=True)
+            grid("A_Spec_periodogram", n, n, "TwoSided", cplx=True)
             grid("A_Spec_psd", 2 * n + 1, n)
             grid("A_Spec_cpsd", 2 * n + 1, n)
             grid("A_Spec_periodogram", n, n)
@@ -813,7 +844,6 @@ def gen_actions(ctx):
             grid("A_Spec_fourier_complex", n, n, "TwoSided")
             grid("A_MTCoh", n, n)
             if n >= 3:
-                grid("A_Coh_mt", n, n)
                 grid("A_Spec_mt", n, n)
                 grid("A_SNR", n, n)
             if n >= 12:
@@ -1099,7 +1129,8 @@ def run(ctx):
     nmax = ctx.scale(70, 150)
     for n in list(range(3, nmax + 1, ctx.scale(2, 1))) + (rng.sample(LARGE, 5) if ctx.quick else LARGE):
         for site in SINE_SITES:
-            sides = "TwoSided" if (site in ("S_periodogram", "S_pcsd", "S_gs_pcsd") and rng.random() < 0.4) else "OneSided"
+            sides = "TwoSided" if (site in ("S_periodogram", "S_pcsd", "S_gs_pcsd", "A_Coh_pcsd", "A_Spec_periodogram")
+                                   and rng.random() < 0.4) else "OneSided"
             src = gen_src(rng, site not in ALGO_SITES)
             if src["k"] == "default":
                 src = {"k": "direct", "fs": (2.0).hex()}
